@@ -222,8 +222,38 @@ class LtRaises:
         return f'LtRaises({self.n})'
 
 
+KPoint = namedtuple('KPoint', 'x y')  # noqa: PYI024  (a tuple subclass: related to plain tuple keys)
+
+
+class BaseKey:
+    def __init__(self, n):
+        self.n = n
+
+    def __hash__(self):
+        return hash((type(self).__name__, self.n))
+
+    def __eq__(self, o):
+        return type(o) is type(self) and o.n == self.n
+
+    def __lt__(self, o):
+        if type(o) is not type(self):
+            return NotImplemented  # orderable only within the exact class
+        return self.n < o.n
+
+    def __repr__(self):
+        return f'{type(self).__name__}({self.n})'
+
+
+class DerivedKey(BaseKey):
+    pass
+
+
+class AKey(BaseKey):  # sorts BEFORE BaseKey by qualified name although it is a subclass
+    pass
+
+
 def key_pool():
-    return [1, 2, 1.5, -1, 'a', 'b', None, (1, 2), (1, 'a'), ('a',), True, frozenset({1}), frozenset({2}),
+    return [KPoint(1, 2), BaseKey(1), DerivedKey(2), AKey(3), BaseKey(0), 1, 2, 1.5, -1, 'a', 'b', None, (1, 2), (1, 'a'), ('a',), True, frozenset({1}), frozenset({2}),
             NoLt(1), NoLt(2), LtRaises(1), b'x', 2 + 1j]
 
 
